@@ -35,7 +35,7 @@ MOLS = [
     ("H3_doublet", 0.9, ["fci", "vqe"], False, None),
     ("H4_f0", 0.9, ["fci", "ccsd", "vqe", "mp2"], False, None),
     ("H4_f03", 0.9, ["fci", "ccsd", "vqe", "mp2"], False, None),
-    ("H4", 0.9, ["fci", "mp2"], False, None),
+    ("H4", 0.9, ["fci", "mp2", "ccsd"], False, None),
     ("H4_cation", 0.9, ["fci"], False, None),
     ("H4_ring", 1.0, ["fci", "mp2"], False, None),
     # unrestricted references: matrices per spin block ([alpha, beta], [aa, ab, bb]); only CCSD and the UCCSD ansatz (JW) support them
@@ -97,6 +97,9 @@ class RdmWorld(World):
             return {"k": rng.choice(["rdm", "rdm", "resample"]), "i": i, "seed": rng.randrange(10 ** 9), "fresh_solver": True}       # get_rdm before simulate / resample before get_rdm
         if e["kind"] != "vqe" and e["e"] is None and rng.random() < 0.85:
             return {"k": "simulate", "i": i, "seed": rng.randrange(10 ** 9)}
+        if not cfg.get("uhf") and any(x["kind"] == "ccsd" and x["e"] is not None for x in self.solvers) and rng.random() < 0.25:
+            # the user rotates two molecular orbitals of the (long-lived) molecule in place and runs the solvers again
+            return {"k": "rotate_mo", "i": rng.randrange(64), "j": rng.randrange(64), "angle": rng.choice([math.pi / 2, 0.3, -0.8, 1.1])}
         w = [("rdm", 4.0), ("simulate", 1.0)]
         if e["last"] is not None:
             w += [("pad", 2.0), ("scribble", 1.2)]
@@ -117,6 +120,7 @@ class RdmWorld(World):
     def _mol(self):
         if self.mol is None:
             self.mol = molecule(self.config["mol"], self.config["d"], uhf=bool(self.config.get("uhf")), frozen=self.config.get("frozen"))
+            self._mo0 = None      # original orbitals, kept from the first in-place rotation on (restored by finish())
         return self.mol
 
     def _new_solver(self, kind):
@@ -134,6 +138,7 @@ class RdmWorld(World):
                 opts["ansatz_options"] = {"k": 1}
             s = VQESolver(opts)
             quiet(s.build)
+            self._vqe_opts = opts
         else:
             s = {"fci": FCISolver, "ccsd": CCSDSolver, "mp2": MP2Solver}[kind](mol)
         return {"kind": kind, "obj": s, "e": None, "last": None, "theta": None, "have_freqs": False}
@@ -146,6 +151,30 @@ class RdmWorld(World):
         if mode == "same_again" and prev is not None and len(prev) == n:
             return list(prev)
         return [round(rng.uniform(-1.2, 1.2), 4) if rng.random() < 0.8 else 0.0 for _ in range(n)]
+
+    def _param_arg(self, e, th, op):
+        """The parameter vector as the caller hands it over: a fresh array, or the caller's own long-lived array that is
+        overwritten in place before every call (as an optimisation loop does)."""
+        if op.get("seed", 0) % 2 == 0 or len(th) == 0:
+            return np.array(th, dtype=float)
+        x = e.get("user_x")
+        if x is None or len(x) != len(th):
+            x = e["user_x"] = np.zeros(len(th))
+        x[:] = th
+        self.ctx.probe("C13.caller_owned_parameter_array_reused")
+        return x
+
+    def _state_at(self, e, th):
+        """State prepared by a *freshly built* ansatz circuit at th (second solver object, never handed a caller-owned array)."""
+        from tangelo.algorithms.variational import VQESolver
+        if e.get("twin") is None:
+            t = VQESolver(dict(self._vqe_opts))
+            quiet(t.build)
+            e["twin"] = t
+        t = e["twin"]
+        quiet(t.ansatz.build_circuit, [float(x) for x in th])
+        n = max(e["obj"].ansatz.circuit.width, t.ansatz.circuit.width, 1)
+        return R.run([C.j_to_ref(C.gate_to_j(g)) for g in t.ansatz.circuit], n), n
 
     def _vqe_reference(self, s):
         """(psi, n, dense H, qubit terms of H, qubit terms of N) from the solver's current circuit and Hamiltonian."""
@@ -190,6 +219,8 @@ class RdmWorld(World):
         if not self.solvers:
             ctx.outcome(k, "skipped")
             return V
+        if k == "rotate_mo":
+            return self._rotate(op)
         e = self.solvers[op["i"] % len(self.solvers)]
         if op.get("fresh_solver"):
             # out-of-protocol call on a solver that has not been simulated / asked yet
@@ -208,7 +239,7 @@ class RdmWorld(World):
                 # (the optimisation loop belongs to C08; here the solver is only moved to another parameter vector)
                 th = self._theta(op, s.ansatz.n_var_params, e["theta"])
                 try:
-                    quiet(s.energy_estimation, np.array(th))
+                    quiet(s.energy_estimation, self._param_arg(e, th, op))
                     e["theta"] = th
                     ctx.outcome(k, "ok:vqe-energy")
                 except Exception as ex:
@@ -247,6 +278,59 @@ class RdmWorld(World):
             return V
         raise HarnessError(k)
 
+    def finish(self):
+        # the molecule object comes from a per-process cache: leave it as it was found (every run is a forked process anyway)
+        if self.mol is not None and getattr(self, "_mo0", None) is not None:
+            self.mol.mo_coeff = self._mo0
+        return []
+
+    # -- orbital rotation of the shared molecule ---------------------------------------------------------------------------
+    def _rotate(self, op):
+        ctx, V, mol = self.ctx, [], self._mol()
+        if mol.uhf:
+            ctx.outcome("rotate_mo", "skipped")
+            return V
+        # Only rotations that keep the reference determinant (two active orbitals of the same occupation) are used: the
+        # coupled-cluster energy is invariant under them, whereas mixing occupied and virtual orbitals changes the reference.
+        act = list(mol.active_mos)
+        occ = np.asarray(mol.mo_occ)
+        pairs = [(a, b) for x, a in enumerate(act) for b in act[x + 1:] if occ[a] == occ[b]]
+        if not pairs:
+            ctx.outcome("rotate_mo", "skipped")
+            return V
+        a, b = pairs[(op["i"] * 7 + op["j"]) % len(pairs)]
+        Cmo = np.array(mol.mo_coeff, copy=True)
+        if self._mo0 is None:
+            self._mo0 = np.array(Cmo, copy=True)
+        c, s_ = math.cos(op["angle"]), math.sin(op["angle"])
+        U = np.eye(Cmo.shape[1])
+        U[a, a], U[b, b], U[a, b], U[b, a] = c, c, -s_, s_
+        try:
+            mol.mo_coeff = Cmo @ U
+        except Exception as ex:
+            ctx.outcome("rotate_mo", "refused-unexpectedly")
+            return [Violation("C13", "unexpected-refusal", "molecule.mo_coeff setter", {"exception": repr(ex)[:300]})]
+        ctx.outcome("rotate_mo", "ok")
+        ctx.probe("C13.orbitals_rotated_between_solver_runs")
+        keep = []
+        for e in self.solvers:
+            e["last"], e["handed"], e["scribbled"] = None, None, False
+            if e["kind"] != "ccsd":
+                # VQE: its Hamiltonian was built with the old orbitals; FCI with frozen orbitals keeps the effective Hamiltonian of
+                # construction time; MP2 needs canonical orbitals. Re-running an existing solver after the molecule's orbitals were
+                # replaced is only exemplified for CCSDSolver (Tangelo's own test-suite): the user builds new solvers of the others.
+                continue
+            if e["e"] is not None:
+                try:
+                    en = quiet(e["obj"].simulate)
+                    e["e"] = float(np.asarray(en).reshape(-1)[0])
+                except Exception as ex:
+                    V.append(Violation("C13", "unexpected-refusal", f"{e['kind']}:simulate-after-orbital-rotation", {"exception": repr(ex)[:300]}))
+                    continue
+            keep.append(e)
+        self.solvers = keep
+        return V
+
     # -- get_rdm ------------------------------------------------------------------------------------------------------
     def _rdm(self, op, e, site):
         ctx, V, kind, s = self.ctx, [], e["kind"], e["obj"]
@@ -280,9 +364,9 @@ class RdmWorld(World):
         try:
             if mol.uhf:
                 sum_spin = True
-                r1, r2 = quiet(s.get_rdm_uhf, np.array(th))
+                r1, r2 = quiet(s.get_rdm_uhf, self._param_arg(e, th, op))
             else:
-                r1, r2 = quiet(s.get_rdm, np.array(th), sum_spin=sum_spin)
+                r1, r2 = quiet(s.get_rdm, self._param_arg(e, th, op), sum_spin=sum_spin)
         except Exception as ex:
             if s.ansatz.circuit.size == 0:
                 ctx.outcome("rdm", "refused-undetermined")           # an ansatz circuit without any gate has no width (cf. C08)
@@ -368,6 +452,16 @@ class RdmWorld(World):
         ctx, V, s, mol = self.ctx, [], e["obj"], self._mol()
         ns = self.config["shots"]
         psi, n, hterms, nterms = self._vqe_reference(s)
+        if len(th) > 0 and s.ansatz.circuit.size > 0:
+            # "for any parameter vector": the matrices must belong to the parameters that were asked for
+            try:
+                psi_req, n_req = self._state_at(e, th)
+            except Exception as ex:
+                raise HarnessError(f"twin ansatz build failed: {ex!r}")
+            ctx.check("C13.state_is_the_requested_one")
+            if n_req == n and R.phase_dist(psi, psi_req) > 1e-6:
+                self._resync_vqe(e)
+                return [Violation("C13", "solver-not-at-requested-parameters", site, {"theta": th[:8], "state_distance": R.phase_dist(psi, psi_req)})]
         e_ref = float(np.vdot(psi, M.dense(hterms, n) @ psi).real)
         n_ref = float(np.vdot(psi, M.dense(nterms, n) @ psi).real)
         if mol.uhf:
@@ -464,6 +558,14 @@ class RdmWorld(World):
         e["last"], e["last_theta"], e["scribbled"] = keep, list(th), False
         e["e"] = e_ref
         return V
+
+    def _resync_vqe(self, e):
+        """After a violation: rebuild the variational solver so that SUT and model agree again."""
+        try:
+            ne = self._new_solver("vqe")
+            e.update({"obj": ne["obj"], "last": None, "theta": None, "have_freqs": False, "handed": None, "user_x": None, "rdm_theta": None})
+        except Exception:
+            pass
 
     # -- padding with the frozen orbitals -------------------------------------------------------------------------------
     def _pad(self, op, e, site):
